@@ -114,10 +114,18 @@ pub fn add_unknown_fields(s: &Schema, sh: &Shape, x: &TVal, rng: &mut Rng) -> TV
         if pos == Pos::Top {
             force_top = false;
         }
-        for _ in 0..n {
+        for i in 0..n {
             let id = unknown_id(fields, &fs, rng);
             let tt = *rng.pick(&ALL_TT);
-            let v = random_value(rng, tt);
+            // now and then a top-level unknown field is a payload on either side of the
+            // zero-copy threshold of the LinkedBytes writers (4096 bytes): retained chunks of
+            // that size are linked in instead of copied
+            let v = if pos == Pos::Top && i == 0 && rng.chance(1, 6) {
+                let len = *rng.pick(&[4092usize, 4096, 5000]);
+                TVal::Binary(rng.bytes(len))
+            } else {
+                random_value(rng, tt)
+            };
             let at = rng.usize_below(fs.len() + 1);
             fs.insert(at, (id, v));
         }
@@ -191,7 +199,7 @@ pub fn evolve(s: &Schema, sh: &Shape, x: &TVal, rng: &mut Rng) -> (TVal, Vec<Str
     let nops = 1 + rng.usize_below(3);
     let mut cur = x.clone();
     for _ in 0..nops {
-        let op = rng.below(8);
+        let op = rng.below(9);
         let mut applied: Option<&'static str> = None;
         let mut budget = 1 + rng.usize_below(2);
         cur = map_target(s, sh, &cur, &mut |fields, is_union, _ok, mut fs, pos| {
@@ -246,6 +254,20 @@ pub fn evolve(s: &Schema, sh: &Shape, x: &TVal, rng: &mut Rng) -> (TVal, Vec<Str
                         budget -= 1;
                     }
                 }
+                (8, true) => {
+                    // fields with ids the reader does not know next to the one known variant
+                    // (before and/or after it): the statement lets a union fail only when it
+                    // carries no known variant or more than one
+                    let n = 1 + rng.usize_below(2);
+                    for _ in 0..n {
+                        let id = unknown_id(fields, &fs, rng);
+                        let tt = *rng.pick(&ALL_TT);
+                        let at = rng.usize_below(fs.len() + 1);
+                        fs.insert(at, (id, random_value(rng, tt)));
+                    }
+                    applied = Some("unknown_fields_around_union_variant");
+                    budget -= 1;
+                }
                 (5, true) => {
                     let id = unknown_id(fields, &fs, rng);
                     let tt = *rng.pick(&ALL_TT);
@@ -299,6 +321,14 @@ pub fn project(s: &Schema, sh: &Shape, x: &TVal) -> Result<TVal, String> {
 thread_local! {
     static ERR_ALSO_OK: std::cell::Cell<bool> = const { std::cell::Cell::new(false) };
     static MISTYPED_UNION: std::cell::Cell<bool> = const { std::cell::Cell::new(false) };
+    static UNION_EXTRA_UNKNOWN: std::cell::Cell<bool> = const { std::cell::Cell::new(false) };
+}
+
+/// did the last `project2` meet a union value with known variant(s) AND fields of unknown
+/// id? (a reader that retains unknown fields keeps such a field as the union's value, so it
+/// sees "several fields"; no writer schema produces such a value)
+pub fn last_union_had_extra_unknown_fields() -> bool {
+    UNION_EXTRA_UNKNOWN.with(|c| c.get())
 }
 
 /// (expected outcome, an error is ALSO acceptable, the value contains a union
@@ -309,6 +339,7 @@ thread_local! {
 pub fn project2(s: &Schema, sh: &Shape, x: &TVal) -> (Result<TVal, String>, bool, bool) {
     ERR_ALSO_OK.with(|c| c.set(false));
     MISTYPED_UNION.with(|c| c.set(false));
+    UNION_EXTRA_UNKNOWN.with(|c| c.set(false));
     let r = match sh {
         Shape::Def(i) => project_ty(s, &Ty::Ref(*i), x),
         _ => {
@@ -388,10 +419,15 @@ fn project_fields(s: &Schema, fields: &[Field], is_union: bool, ok_empty: bool, 
                 }
             }
         }
-        if fs.len() > 1 && known.len() != fs.len() {
-            // several fields in one union value, not all of them variants the
-            // reader knows: no writer schema produces that; not judged
+        // several fields in one union value, one of them with a KNOWN id but another wire
+        // type: what the decoder makes of that variant is the recorded finding; not judged.
+        // Fields with UNKNOWN ids next to the known variant(s) are judged: they are skipped.
+        let mistyped_here = fs.iter().any(|(id, v)| fields.iter().any(|f| f.id == *id && s.tt(&f.ty) != v.tt()));
+        if fs.len() > 1 && mistyped_here {
             ERR_ALSO_OK.with(|c| c.set(true));
+        }
+        if fs.len() > 1 && !known.is_empty() && known.len() < fs.len() {
+            UNION_EXTRA_UNKNOWN.with(|c| c.set(true));
         }
         return match known.len() {
             0 => {
